@@ -148,6 +148,10 @@ func (o fsOp) String() string {
 		return fmt.Sprintf("symlink(%s->%s[%d])", o.Path, clip(o.Path2), len(o.Path2))
 	case "chmod", "chown", "chtimes":
 		return fmt.Sprintf("%s(%s,%s)", o.Kind, o.Path, o.Len)
+	case "heldwrite", "heldread":
+		return fmt.Sprintf("%s(off=%s,len=%s)", o.Kind, o.Off, o.Len)
+	case "release":
+		return "release"
 	}
 	return o.Kind + "(" + o.Path + ")"
 }
@@ -473,6 +477,10 @@ type fatSys struct {
 	canonFree bool
 	// what the writing handle showed after its Write was refused (judged against the fresh-handle view of the same file)
 	shRefused *refusedHandleView
+	// a handle that stays open across other calls (letters hold / heldwrite / release; structural oracles only)
+	held      filesystem.File
+	heldPath  string
+	heldStale int // calls made since the handle was opened
 }
 
 type refusedHandleView struct {
@@ -591,8 +599,67 @@ func (s *fatSys) apply(op fsOp) (err error, viols []explore.Viol) {
 	seed := opSeed(op)
 	add := func(sig, msg string) { viols = append(viols, explore.Viol{Sig: sig, Msg: msg}) }
 	m := s.model
+	if s.held != nil {
+		s.heldStale++
+	}
 	switch op.Kind {
+	case "hold":
+		if s.held != nil {
+			_ = s.held.Close()
+			s.held = nil
+		}
+		var f filesystem.File
+		if pm := guard(func() { f, err = s.fs.OpenFile(op.Path, os.O_RDWR) }); pm != "" {
+			add("hold|"+pm, pm)
+			return errors.New(pm), viols
+		}
+		if err == nil {
+			s.held, s.heldPath, s.heldStale = f, op.Path, 0
+		}
+		return err, viols
+	case "release":
+		if s.held == nil {
+			return errors.New("no handle is held"), viols
+		}
+		pm := guard(func() { err = s.held.Close() })
+		s.held = nil
+		if pm != "" {
+			add("release|"+pm, pm)
+			return errors.New(pm), viols
+		}
+		return err, viols
+	case "heldwrite", "heldread":
+		if s.held == nil {
+			return errors.New("no handle is held"), viols
+		}
+		cur := 0
+		if n := m.get(s.heldPath); n != nil {
+			cur = len(n.Data)
+		}
+		off, ln := s.resolveOff(op.Off, cur), s.resolveLen(op.Len, cur)
+		pm := guard(func() {
+			if _, err = s.held.Seek(int64(off), io.SeekStart); err != nil {
+				return
+			}
+			if op.Kind == "heldread" {
+				_, err = s.held.Read(make([]byte, ln))
+				if err == io.EOF {
+					err = nil
+				}
+				return
+			}
+			_, err = s.held.Write(patternBytes(seed, ln))
+		})
+		if pm != "" {
+			add(op.Kind+"|"+pm, pm)
+			return errors.New(pm), viols
+		}
+		return err, viols
 	case "reopen":
+		if s.held != nil {
+			_ = s.held.Close()
+			s.held = nil
+		}
 		var nfs filesystem.FileSystem
 		pm := guard(func() { nfs, err = fatRead(s.cfg, s.dev, false) })
 		if pm != "" {
@@ -1062,6 +1129,14 @@ func (s *fatSys) key() [32]byte {
 	}
 	md := s.model.digest()
 	h.Write(md[:])
+	if s.held != nil {
+		// the open handle caches size, cursor and (FAT) its cluster list: how stale it is belongs to the state
+		sz := int64(-1)
+		if fi, e := s.held.Stat(); e == nil {
+			sz = fi.Size()
+		}
+		fmt.Fprintf(h, "held|%s|%d|%d", s.heldPath, s.heldStale, sz)
+	}
 	var o [32]byte
 	copy(o[:], h.Sum(nil))
 	return o
